@@ -115,6 +115,7 @@ def groups(tier, rng):
     return [Group("accept2/two-listeners-close-error", two, project=project, theorems=THEOREMS),
             Group("accept/outcome-sequences", acc, exhaustive=(tier == "thorough"), project=project, theorems=THEOREMS, monitor=False),
             Group("accept/hanging-connections", hang, project=project, theorems=THEOREMS, monitor=False),
+            Group("multi/connections-of-one-server", multi_cases(tier, rng), project=lambda c, a: a.split("\t")[0], theorems=THEOREMS, monitor=False),
             Group("sched/delivery-orders", sched_cases(tier, rng), project=project, theorems=THEOREMS, monitor=False),
             # the command loop does not wait for the delivery goroutine (`latestart`): the peer is gone before the delivery starts
             Group("sched/disconnect-before-delivery-starts", _late(tier, rng), project=_proj_late, theorems=THEOREMS, monitor=False)]
@@ -145,7 +146,25 @@ def race_cases(tier, rng):
     out += _late(tier, rng)
     out += ["accept\tconn,tlshang,conn\tclose,none", "accept\tconn,conn\tshutdown,close", "accept\ttlshang,tlshang\tclose,close"]
     out += unordered_endings(tier, rng)
+    out += multi_cases(tier, rng)
     return out
+
+
+def multi_cases(tier, rng):
+    """several connections of ONE server served at the same time, all fed the same conversation (probe `multi`): whatever the server
+    shares between its connections (tables built once, caches) is touched from several goroutines — the race detector judges that —
+    and every connection must be answered alike"""
+    cases = []
+    convs = [[b"EHLO x\r\n", b"QUIT\r\n"], [b"EHLO x\r\n", b"MAIL FROM:<s@x>\r\n", b"RCPT TO:<r@x>\r\n", b"DATA\r\n", b"hi\r\n.\r\n", b"QUIT\r\n"],
+             [b"EHLO x\r\n", b"MAIL FROM:<s@x> SIZE=5 BODY=8BITMIME\r\n", b"RCPT TO:<r@x> NOTIFY=NEVER\r\n", b"BDAT 2 LAST\r\nhi", b"EHLO y\r\n", b"NOOP\r\n"],
+             [b"HELO x\r\n", b"FOO\r\n", b"AUTH PLAIN AGFiAHB3\r\n", b"EHLO z\r\n", b"STARTTLS\r\n"]]
+    for cfg in (dict(), dict(tls="avail", insecure=1, authsess=1, mechs=hx(b"PLAIN"), utf8=1, dsn=1, maxmsg=100, maxrcpt=5), dict(lmtp=1, lmtpsess=1, dsn=1)):
+        for conv in convs:
+            lines = [(b"LHLO" + l[4:] if cfg.get("lmtp") and l[:4] in (b"EHLO", b"HELO") else l) for l in conv]
+            for n in (2, 4):
+                for _ in range(1 if tier == "quick" else 5):
+                    cases.append("\t".join(["multi", g.cfg_str(cfg), str(n), ",".join(hx(l) for l in lines)]))
+    return cases
 
 
 def unordered_endings(tier, rng):
